@@ -1608,6 +1608,8 @@ func (g Gateway) SubscribeToEvents(in *hydrapb.SubscribeToEventsRequest, eventSe
 	// Get the server context
 	hydraInterface := g.ZeusInterface.GetHydra()
 
+	var sendMu sync.Mutex
+
 	eventCallbackFunction := func(event *swamp.Event) {
 
 		if event == nil {
@@ -1625,7 +1627,8 @@ func (g Gateway) SubscribeToEvents(in *hydrapb.SubscribeToEventsRequest, eventSe
 		convertedStatusType := convertTreasureStatusToPbStatus(event.StatusType)
 
 		// convert the event time to the protobuf format
-		convertedEventTime := timestamppb.New(time.Unix(event.EventTime, 0))
+		// EventTime is a UnixNano value (see swamp.sendEventToHydra)
+		convertedEventTime := timestamppb.New(time.Unix(0, event.EventTime))
 		convertedOldTreasure := &hydrapb.Treasure{}
 		convertedDeletedTreasure := &hydrapb.Treasure{}
 
@@ -1658,6 +1661,11 @@ func (g Gateway) SubscribeToEvents(in *hydrapb.SubscribeToEventsRequest, eventSe
 		}
 
 		// send the message to the client
+		// The callback runs on the goroutine of whichever request changed the swamp, so two
+		// writers can arrive here at the same time; a gRPC stream must not be used by two
+		// senders concurrently.
+		sendMu.Lock()
+		defer sendMu.Unlock()
 		if sendErr := eventServer.SendMsg(&hydrapb.SubscribeToEventsResponse{
 			SwampName:       eventSwampName,
 			Treasure:        convertedTreasure,
